@@ -33,8 +33,8 @@ from ..common import dumps, MachineryError
 from .. import c19_geom as G
 
 # layer-C flags: '0' mirrors the current tree (open defect), '1' the repaired form
-FIXED_SLICE = '0'      # Parallel2dGeometry.__getitem__ passes the translated det_pos_init
-FIXED_CURV = '0'       # ConeBeamGeometry.__getitem__ passes a scalar curvature radius
+FIXED_SLICE = '1'      # Parallel2dGeometry.__getitem__ passes the translated det_pos_init
+FIXED_CURV = '1'       # ConeBeamGeometry.__getitem__ passes a scalar curvature radius
 FIXED_COVER = '0'      # cone_beam_geometry / helical_geometry extents
 
 SLICEABLE = ('par2d', 'par3dax', 'fan', 'cone')
